@@ -357,6 +357,302 @@ def fam_carry_range(rng):
     return Case("getitem_at %d %s" % (i, lay.tokens()), check, {"value": vals})
 
 
+def _tok_item(it):
+    k = it[0]
+    if k == "at":
+        return "at %d" % it[1]
+    if k == "rng":
+        return "rng %s %s %s" % tuple("_" if x is None else x for x in it[1:4])
+    if k == "ell":
+        return "ell"
+    if k == "new":
+        return "new"
+    if k == "fld":
+        return "fld %s" % it[1]
+    if k == "arr":
+        frombool = it[3] if len(it) > 3 else 0
+        return "arr %d %d %s %s" % (frombool, len(it[2]), " ".join(map(str, it[2])), " ".join(map(str, it[1])))
+    if k == "miss":
+        idx, vals, j = [], [], 0
+        for i in it[1]:
+            if i is None:
+                idx.append(-1)
+            else:
+                idx.append(len(vals))
+                vals.append(i)
+        return "lay " + L.IO("64", idx, L.NP("int64", vals)).tokens()
+    if k == "lay":
+        return "lay " + it[1].tokens()
+    raise ValueError(it)
+
+
+def slice_tokens(items):
+    return "%d %s" % (len(items), " ".join(_tok_item(it) for it in items))
+
+
+def expect_getitem(x, T, items, what):
+    try:
+        ref = R.getitem(x, T, items)
+    except R.IndexErr as e:
+        msg = str(e)
+
+        def check(r):
+            if r.status == "EXC":
+                return None
+            return ("value", "%s: %s, so the library must raise; it returned %s" % (what, msg, r))
+        return check
+    except R.Refuse:
+        return None
+    inner = expect_value(ref, what, cmp=L.same)
+    if R.regular_out_of_range(T, items):
+        # NumPy raises for an index beyond a fixed-size dimension even if nothing is selected: either is right
+        def check2(r):
+            return None if r.status == "EXC" else inner(r)
+        return check2
+    return inner
+
+
+def _rand_range(rng, n):
+    def b():
+        return rng.choice([None, None] + list(range(-n - 2, n + 3)))
+    step = rng.choice([None, None, 1, 1, 2, 3, -1, -1, -2, -3])
+    return ("rng", b(), b(), step)
+
+
+def fam_getitem_basic(rng):
+    """C01: integers, ranges with any bounds and step, ellipsis, newaxis and field names select what Python/NumPy
+    indexing selects level by level (out-of-range integers raise)"""
+    usefld = rng.random() < 0.3
+    T = gen_pure(rng, rng.randint(0, 3), regular=0.25, leafrec=1.0 if usefld else 0.0)
+    vals = [L.gen_value(rng, T) for _ in range(rng.randint(0, 4))]
+    lay = L.Enc(rng).encode(vals, T)
+    levels = R._levels(("list", T))
+    items = []
+    ncons = rng.randint(0, levels)
+    lens = [len(vals)]
+    for i in range(ncons):
+        if rng.random() < 0.4:
+            items.append(("at", rng.randint(-3, 3)))
+        else:
+            items.append(_rand_range(rng, 3))
+    if rng.random() < 0.25:
+        items.insert(rng.randint(0, len(items)), ("ell",))
+    for _ in range(rng.choice([0, 0, 0, 1, 2])):
+        items.insert(rng.randint(0, len(items)), ("new",))
+    if usefld:
+        leaf = T
+        while leaf[0] in ("list", "regular", "option"):
+            leaf = leaf[1]
+        if leaf[0] == "record":
+            key = rng.choice(leaf[1]) if leaf[1] is not None else str(rng.randrange(len(leaf[2])))
+            items.insert(rng.randint(0, len(items)), ("fld", key))
+    if not items:
+        return None
+    chk = expect_getitem(vals, T, items, "x[%r] of %r" % (items, vals))
+    if chk is None:
+        return None
+    return Case("getitem %s %s" % (slice_tokens(items), lay.tokens()), chk, {"value": vals, "type": T})
+
+
+def fam_getitem_array(rng):
+    """C01: integer arrays (one or two adjacent, one- or two-dimensional, negative entries) and boolean arrays, mixed
+    with integers and ranges, select NumPy-style: the first array creates the new dimension(s), adjacent arrays iterate
+    together; index arrays containing missing values give missing results.  Arrays without missing LISTS
+    (KF-C01-advanced-with-missing-lists), no empty index array after another item (KF-C01-empty-index-array)"""
+    T = gen_pure(rng, rng.randint(0, 3), regular=0.25, optlist=0.0)
+    n = rng.randint(1, 4)
+    vals = [L.gen_value(rng, T) for _ in range(n)]
+    lay = L.Enc(rng).encode(vals, T)
+    levels = R._levels(("list", T))
+    kind = rng.choice(["int", "int", "int2", "bool", "miss"])
+    pre = []
+    if rng.random() < 0.3 and levels >= 2:
+        pre = [_rand_range(rng, 3) if rng.random() < 0.7 else ("at", rng.randint(-2, 2))]
+    remaining = levels - len(pre)
+    if remaining < 1:
+        return None
+    shape = [rng.randint(0, 4)] if rng.random() < 0.75 else [rng.randint(1, 2), rng.randint(0, 3)]
+    flatlen = 1
+    for d in shape:
+        flatlen *= d
+    arrs = []
+    if kind == "miss":
+        if pre:
+            return None
+        arrs = [("miss", [None if rng.random() < 0.3 else rng.randint(-2, 2) for _ in range(rng.randint(0, 4))])]
+    elif kind == "bool":
+        if pre:
+            return None
+        mask = [rng.random() < 0.5 for _ in range(n)]
+        nz = [i for i, m in enumerate(mask) if m]
+        arrs = [("arr", nz, [len(nz)], 1)]
+    else:
+        narr = 2 if (kind == "int2" and remaining >= 2) else 1
+        for _ in range(narr):
+            arrs.append(("arr", [rng.randint(-2, 2) for _ in range(flatlen)], shape))
+    post = []
+    left = remaining - len(arrs)
+    if left > 0 and rng.random() < 0.4 and kind != "miss":
+        post = [_rand_range(rng, 3) if rng.random() < 0.6 else ("at", rng.randint(-2, 2))]
+    if pre and flatlen == 0 and kind != "miss":
+        return None      # KF-C01-empty-index-array
+    items = pre + arrs + post
+    chk = expect_getitem(vals, T, items, "x[%r] of %r" % (items, vals))
+    if chk is None:
+        return None
+    return Case("getitem %s %s" % (slice_tokens(items), lay.tokens()), chk, {"value": vals, "type": T})
+
+
+def _gen_jagged(rng, v, depth, boolean, none_p):
+    """a jagged index matching the list structure of v down `depth` levels, then int/bool leaves into the next level"""
+    if v is None:
+        return None if rng.random() < 0.5 else []
+    if depth == 0:
+        n = len(v)
+        if boolean:
+            return [rng.random() < 0.5 for _ in range(n)]
+        return [None if rng.random() < none_p else (rng.randint(-n, n - 1) if n else 0) for _ in range(rng.randint(0, 3) if n else 0)]
+    return [_gen_jagged(rng, e, depth - 1, boolean, none_p) for e in v]
+
+
+def _jag_type(depth, boolean, none_p):
+    T = ("num", "bool" if boolean else "int64")
+    if none_p > 0 and not boolean:
+        T = ("option", T)
+    T = ("list", T)
+    for _ in range(depth):
+        T = ("list", T)
+    return T
+
+
+def fam_getitem_jagged(rng):
+    """C01: a jagged integer or boolean array (optionally with missing entries) selects list by list"""
+    T = gen_pure(rng, rng.randint(1, 3), regular=0.0, optlist=0.0)
+    vals = [L.gen_value(rng, T) for _ in range(rng.randint(0, 4))]
+    lay = L.Enc(rng).encode(vals, T)
+    levels = R._levels(("list", T))
+    depth = rng.randint(1, levels - 1) if levels >= 2 else None
+    if depth is None:
+        return None
+    boolean = rng.random() < 0.35
+    none_p = 0.0 if boolean or rng.random() < 0.6 else 0.25
+    J = _gen_jagged(rng, vals, depth, boolean, none_p)
+    JT = _jag_type(depth - 1, boolean, none_p)     # element type of the index array J (a list of ...)
+    # J is a list (the array) of values of type: depth-1 more list levels, then the int/bool list
+    jl = L.Enc(rng, style="canonical").encode(J, JT)
+    try:
+        ref = R.jagged(vals, J)
+    except R.IndexErr:
+        return None
+    except R.Refuse:
+        return None
+    what = "x[jagged %r] of %r" % (J, vals)
+    return Case("getitem 1 lay %s %s" % (jl.tokens(), lay.tokens()), expect_value(ref, what, cmp=L.same), {"value": vals, "type": T})
+
+
+def fam_getitem_numpy(rng):
+    """C01: on rectilinear arrays (RegularArray chains / n-dimensional NumpyArray) every accepted index expression
+    gives NumPy's own result (oracle: numpy itself): integers, ranges, ellipsis, newaxis, adjacent integer arrays
+    (broadcast together), boolean arrays of one or two dimensions"""
+    import numpy as np
+    ndim = rng.randint(1, 3)
+    shape = [rng.randint(0, 3) for _ in range(ndim)]
+    dtype = rng.choice(["int64", "float64", "int32", "bool", "uint8"])
+    total = 1
+    for d in shape:
+        total *= d
+    flat = [L.gen_leaf(rng, dtype) for _ in range(total)]
+    if dtype.startswith("float"):
+        flat = [0.0 if x != x else x for x in flat]
+    a = np.array(flat, dtype=dtype).reshape(shape)
+    T = ("num", dtype)
+    for d in reversed(shape[1:]):
+        T = ("regular", T, d)
+    vals = a.tolist()
+    lay = L.Enc(rng).encode(vals, T) if shape[0] > 0 or ndim == 1 else L.NP(dtype, flat, shape)
+    items, npitems = [], []
+    kind = rng.choice(["basic", "arr", "arr", "bool"])
+    dim = 0
+    if kind == "bool":
+        bd = 1 if ndim == 1 or rng.random() < 0.6 else 2
+        bshape = shape[:bd]
+        btotal = 1
+        for d in bshape:
+            btotal *= d
+        mask = np.array([rng.random() < 0.5 for _ in range(btotal)], dtype=bool).reshape(bshape)
+        nz = np.nonzero(mask)
+        for comp in nz:
+            items.append(("arr", [int(i) for i in comp], [len(comp)], 1))
+        npitems.append(mask)
+        dim = bd
+    elif kind == "arr":
+        while dim < ndim and rng.random() < 0.4:
+            it = _rand_range(rng, 3)
+            items.append(it)
+            npitems.append(slice(it[1], it[2], it[3]))
+            dim += 1
+        if dim >= ndim:
+            return None
+        ashape = [rng.randint(1, 3)] if rng.random() < 0.7 else [rng.randint(1, 2), rng.randint(1, 2)]
+        at = 1
+        for d in ashape:
+            at *= d
+        narr = 1 if (ndim - dim < 2 or rng.random() < 0.5) else 2
+        for _ in range(narr):
+            size = shape[dim]
+            fl = [rng.randint(-size, size - 1) if size else rng.randint(-1, 1) for _ in range(at)]
+            items.append(("arr", fl, ashape))
+            npitems.append(np.array(fl, dtype=np.int64).reshape(ashape))
+            dim += 1
+    seen_range = False
+    while dim < ndim and rng.random() < 0.6:
+        # (an integer after array, range is "advanced indexes separated by basic indexes": documented refusal)
+        if rng.random() < 0.35 and not (kind != "basic" and seen_range):
+            size = shape[dim]
+            i = rng.randint(-size - 1, size)
+            items.append(("at", i))
+            npitems.append(i)
+        else:
+            it = _rand_range(rng, 3)
+            items.append(it)
+            npitems.append(slice(it[1], it[2], it[3]))
+            seen_range = True
+        dim += 1
+    if kind == "basic":
+        if rng.random() < 0.3:
+            pos = rng.randint(0, len(items))
+            items.insert(pos, ("ell",))
+            npitems.insert(pos, Ellipsis)
+        for _ in range(rng.choice([0, 0, 1, 2])):
+            pos = rng.randint(0, len(items))
+            items.insert(pos, ("new",))
+            npitems.insert(pos, None)
+    if not items:
+        return None
+    what = "x[%r] of numpy array %r" % (items, vals)
+    try:
+        ref = a[tuple(npitems)]
+        ref = ref.tolist()
+    except IndexError as e:
+        msg = str(e)
+        # NumPy checks fixed-size dimensions even when nothing is selected; selecting level by level there is
+        # nothing to be out of range: both outcomes are accepted in that case
+        alt = None
+        try:
+            alt = (R.getitem(vals, T, items),)
+        except (R.IndexErr, R.Refuse):
+            pass
+
+        def check(r):
+            if r.status == "EXC":
+                return None
+            if alt is not None and r.status == "OK" and L.same(r.value, alt[0]):
+                return None
+            return ("value", "%s: NumPy raises IndexError (%s); the library returned %s" % (what, msg, r))
+        return Case("getitem %s %s" % (slice_tokens(items), lay.tokens()), check, {"value": vals})
+    return Case("getitem %s %s" % (slice_tokens(items), lay.tokens()), expect_value(ref, what, cmp=L.same), {"value": vals})
+
+
 def fam_convert(rng):
     """C02/C09: conversions among encodings keep the value: toListOffsetArray64, toRegularArray, option-encoding
     conversions, simplify_optiontype, shallow_simplify, deep_copy, project (drops exactly the missing values), bytemask"""
@@ -395,6 +691,10 @@ FAMILIES = {
     "reduce_rect": (fam_reduce_rect, ["C03"]),
     "tolist": (fam_tolist, ["C02"]),
     "carry_range": (fam_carry_range, ["C02", "C01"]),
+    "getitem_basic": (fam_getitem_basic, ["C01"]),
+    "getitem_array": (fam_getitem_array, ["C01"]),
+    "getitem_jagged": (fam_getitem_jagged, ["C01"]),
+    "getitem_numpy": (fam_getitem_numpy, ["C01"]),
     "convert": (fam_convert, ["C02", "C09"]),
     "num": (fam_num, ["C05"]),
     "flatten": (fam_flatten, ["C05"]),
